@@ -36,7 +36,8 @@ def cases(tier, seed):
     n = 48 if tier == 'quick' else 640
     m = 32 if tier == 'quick' else 400
     grid = [{'grid': k} for k in store.KINDS]
-    return grid + [{'hist': i} for i in range(n)] + [{'conc': i} for i in range(m)]
+    crypto = [{'crypto': k} for k in ('encrypt', 'decrypt', 'sign', 'signature_verify', 'mac', 'derive_key', 'get')]
+    return grid + crypto + [{'hist': i} for i in range(n)] + [{'conc': i} for i in range(m)]
 
 
 def setup(ctx):
@@ -253,9 +254,144 @@ def run_grid(ctx, case):
             srv.close()
 
 
+def run_crypto_grid(ctx, case):
+    """Coherent cryptographic requests: an Active key of the right kind with the right usage mask, then the full product
+    of the parameters the protocol allows (every block mode, padding method, hashing and signature algorithm, IV present
+    / absent / of another size, data lengths around the block size).  A combination the server cannot serve has a
+    specific answer; none may end in General Failure."""
+    import itertools
+    rng = ctx.rng()
+    rig.install_clock(rig.VClock(step=1))
+    E = enums
+    CA, BM, PM, HA, DSA = E.CryptographicAlgorithm, E.BlockCipherMode, E.PaddingMethod, E.HashingAlgorithm, E.DigitalSignatureAlgorithm
+    kind = case['crypto']
+    ident = ('alice', None)
+    reqs = []
+    with rig.scratch_dir() as d:
+        srv = rig.Server(d + '/db.sqlite')
+        try:
+            keys = {}
+            for alg, n in ((CA.AES, 16), (CA.AES, 32), (CA.TRIPLE_DES, 24), (CA.BLOWFISH, 16), (CA.CAMELLIA, 16), (CA.RC4, 16)):
+                r = srv.send([rig.op_register('sym', rig.secret_sym(bytes(range(n)), alg, n * 8), rig.sym_attrs(alg, n * 8, rig.ALL_MASKS))], ident)
+                if r.error is None and r.ok():
+                    srv.send([rig.op_activate(r.uid())], ident)
+                    keys[(alg, n)] = r.uid()
+            pair = srv.send([rig.op_create_key_pair(E.CryptographicAlgorithm.RSA, 1024)], ident)
+            priv = pub = None
+            if pair.error is None and pair.ok():
+                priv = rig.T.val(pair.payload(), E.Tags.PRIVATE_KEY_UNIQUE_IDENTIFIER.value)
+                pub = rig.T.val(pair.payload(), E.Tags.PUBLIC_KEY_UNIQUE_IDENTIFIER.value)
+                for u in (priv, pub):
+                    srv.send([rig.op_activate(u)], ident)
+            secret = srv.send([rig.op_register('secret', rig.secret_data(b'0123456789abcdef0123456789abcdef'),
+                                               [rig.attr(E.AttributeType.CRYPTOGRAPHIC_USAGE_MASK, rig.ALL_MASKS)])], ident)
+            secret_uid = secret.uid() if (secret.error is None and secret.ok()) else None
+            if secret_uid:
+                srv.send([rig.op_activate(secret_uid)], ident)
+            blocks = {CA.AES: 16, CA.TRIPLE_DES: 8, CA.BLOWFISH: 8, CA.CAMELLIA: 16, CA.RC4: 1}
+            if kind in ('encrypt', 'decrypt'):
+                for (alg, n), uid in keys.items():
+                    bs = blocks[alg]
+                    for mode, padm in itertools.product([None] + list(BM), [None] + list(PM)):
+                        for dl in rng.sample([0, 1, bs - 1, bs, bs + 1, 2 * bs, 37], 3):
+                            iv = rng.choice((None, bytes(bs), bytes(bs), bytes(12), bytes(5)))
+                            params = rig.cparams(cryptographic_algorithm=alg, block_cipher_mode=mode, padding_method=padm,
+                                                 tag_length=rng.choice((None, 16, 12)) if mode == BM.GCM else None,
+                                                 hashing_algorithm=rng.choice((None, None, HA.SHA_256)))
+                            data = bytes(range(dl % 256)) if dl else b''
+                            if kind == 'encrypt':
+                                reqs.append((kind, '%s/%s/%s' % (alg.name, mode.name if mode else '-', padm.name if padm else '-'),
+                                             rig.op_encrypt(uid, data, params, iv, rng.choice((None, b'aad')) if mode == BM.GCM else None)))
+                            else:
+                                reqs.append((kind, '%s/%s/%s' % (alg.name, mode.name if mode else '-', padm.name if padm else '-'),
+                                             rig.op_decrypt(uid, data, params, iv, None, tag=bytes(16) if mode == BM.GCM else None)))
+                rng.shuffle(reqs)
+                reqs = reqs[:1400 if ctx.tier == 'quick' else 10 ** 6]
+            elif kind in ('sign', 'signature_verify') and priv:
+                combos = [dict(digital_signature_algorithm=m) for m in DSA] + \
+                         [dict(cryptographic_algorithm=a, hashing_algorithm=h) for a in (CA.RSA, CA.DSA, CA.ECDSA, CA.AES, None) for h in [None] + list(HA)]
+                for combo, padm in itertools.product(combos, [None] + list(PM)):
+                    params = rig.cparams(padding_method=padm, **combo)
+                    label = '%s/%s' % ('+'.join(getattr(v, 'name', '-') for v in combo.values()), padm.name if padm else '-')
+                    for dl in (0, 33):
+                        if kind == 'sign':
+                            reqs.append((kind, label, rig.op_sign(priv, bytes(dl), params)))
+                        else:
+                            reqs.append((kind, label, rig.op_signature_verify(pub, bytes(dl), bytes(rng.choice((0, 5, 128))), params)))
+                rng.shuffle(reqs)
+                reqs = reqs[:1200 if ctx.tier == 'quick' else 10 ** 6]
+            elif kind == 'mac':
+                for uid in list(keys.values())[:2] + [secret_uid]:
+                    for alg in [None] + list(CA):
+                        for data in (b'', b'x', bytes(100)):
+                            reqs.append((kind, alg.name if alg else '-', rig.op_mac(uid, data, rig.cparams(cryptographic_algorithm=alg) if alg or rng.random() < 0.5 else None)))
+            elif kind == 'derive_key':
+                from kmip.core import attributes as attrs_
+                bases = [u for u in list(keys.values())[:3] + [secret_uid] if u]
+                for method, h, alg in itertools.product(list(E.DerivationMethod), [None, HA.SHA_1, HA.SHA_256, HA.SHA_512, HA.MD5, HA.SHA3_256],
+                                                        (None, CA.AES, CA.HMAC_SHA256, CA.TRIPLE_DES)):
+                    for length in rng.sample([0, 8, 64, 128, 192, 256, 1024, 4096], 2):
+                        dp = attrs_.DerivationParameters(
+                            cryptographic_parameters=rig.cparams(hashing_algorithm=h, cryptographic_algorithm=alg,
+                                                                 block_cipher_mode=rng.choice((None, BM.CBC, BM.ECB, BM.CTR)),
+                                                                 padding_method=rng.choice((None, PM.PKCS5, PM.NONE))),
+                            initialization_vector=rng.choice((None, bytes(16), bytes(8))),
+                            derivation_data=rng.choice((None, b'', bytes(16), bytes(5))),
+                            salt=rng.choice((None, b'', bytes(8))), iteration_count=rng.choice((None, 0, 1, 10)))
+                        al = [rig.attr(E.AttributeType.CRYPTOGRAPHIC_LENGTH, length), rig.attr(E.AttributeType.CRYPTOGRAPHIC_ALGORITHM, CA.AES),
+                              rig.attr(E.AttributeType.CRYPTOGRAPHIC_USAGE_MASK, rig.ALL_MASKS)]
+                        reqs.append((kind, '%s/%s' % (method.name, h.name if h else '-'),
+                                     rig.op_derive_key([rng.choice(bases)], rng.choice((E.ObjectType.SYMMETRIC_KEY, E.ObjectType.SECRET_DATA)), method, dp, al)))
+                rng.shuffle(reqs)
+                reqs = reqs[:900 if ctx.tier == 'quick' else 10 ** 6]
+            elif kind == 'get':
+                # every object kind x every key format type x compression x wrapping by every kind of object
+                objs = store.populate(srv, rng, n=len(store.KINDS), owners=('alice',), policies=(None,), states=('pre', 'active'))
+                wrappers = list(keys.values())[:2] + [secret_uid, priv]
+                for o in objs:
+                    for fmt in [None] + list(E.KeyFormatType):
+                        for comp in (None, E.KeyCompressionType.EC_PUBLIC_KEY_TYPE_UNCOMPRESSED):
+                            reqs.append((kind, '%s/%s' % (o.kind, fmt.name if fmt else '-'), rig.op_get(o.uid, fmt=fmt, compression=comp)))
+                        w = rng.choice(wrappers)
+                        if w:
+                            reqs.append((kind, '%s/%s/wrapped' % (o.kind, fmt.name if fmt else '-'),
+                                         rig.op_get(o.uid, fmt=fmt, wrap=rig.wrap_spec(w, rng.choice(list(BM))))))
+            for opname, label, op in reqs:
+                version = rng.choice(((1, 2), (1, 3), (1, 4), (2, 0)))
+                try:
+                    data = rig.encode_request(rig.build_request(version, [op]), version)
+                    rig.decode_request(data)
+                except Exception:
+                    ctx.count('not_wellformed')
+                    continue
+                ctx.count('requests_wellformed')
+                ctx.count('crypto_grid_requests')
+                ctx.cap.reset()
+                res = srv.send_bytes(data, ident)
+                ctx.ev()
+                if res.error is not None:
+                    ctx.violation('%s|%s|%s|%s' % (opname, 'response-unencodable' if res.error_stage == 'encode' else 'request-level',
+                                                   type(res.error).__name__, logwatch.innermost_kmip_frame(res.error.__traceback__)),
+                                  'well-formed %s (%s) makes process_request raise %s' % (opname, label, type(res.error).__name__),
+                                  {'version': version, 'request': data.hex()[:1000], 'error': str(res.error)[:300]})
+                    continue
+                rn = rig.reason_name(res.item()['status'], res.reason()) if res.item() else 'no-item'
+                ctx.cell('crypto', opname, label, rn)
+                ctx.count('engine_error_records_checked')
+                if res.reason() == rig.GENERAL_FAILURE:
+                    exc = ctx.cap.last_exc or ('unknown', '', 'unknown')
+                    ctx.violation('%s|%s|%s|%s' % (opname, exc[0], exc[2], logwatch.exception_digest(exc[0], exc[1])),
+                                  'well-formed %s (%s) on an Active key of the right kind answered GENERAL_FAILURE (%s: %s in %s)'
+                                  % (opname, label, exc[0], exc[1], exc[2]), {'version': version, 'request': data.hex()[:1000]})
+        finally:
+            srv.close()
+
+
 def run_case(ctx, case):
     if 'conc' in case:
         return run_concurrent(ctx, case)
+    if 'crypto' in case:
+        return run_crypto_grid(ctx, case)
     if 'grid' in case:
         return run_grid(ctx, case)
     rng = ctx.rng()
